@@ -138,18 +138,17 @@ theorem emit_loop_tie (code : List (BitVec 8)) (loopStart : Nat) (hl : (code.len
       simp only [hbig, if_false, Rs.M.bind_ok, hb.1, hb.2]
       simp [Rs.idx, loopOpcodeEff, effByte]
 
-/-- `Parser::patch_offset_at(pos, offset)`.  `code` is the chunk on entry; `code'` is the chunk as it is read after the
-(possible) call of `self.error` - the translator does not know that `error` leaves the code alone, so the statement is
-for ANY `code'` with the two operand positions inside it. -/
-theorem patch_offset_at_tie (code code' : List (BitVec 8)) (pos offset : Nat) (hl : (code.length : Int) ≤ F64.isizeMax)
-    (hp : pos + 1 < code'.length) (hl' : (code'.length : Int) ≤ F64.isizeMax) :
-    Fns.patch_offset_at (pos : Int) (offset : Int) code code' =
+/-- `Parser::patch_offset_at(pos, offset)` on the chunk `code` (the possible call of `self.error` takes `&self`: it cannot touch the
+code, and the translator now knows; until then this theorem had to be stated for an arbitrary re-read chunk). -/
+theorem patch_offset_at_tie (code : List (BitVec 8)) (pos offset : Nat) (hl : (code.length : Int) ≤ F64.isizeMax)
+    (hp : pos + 1 < code.length) :
+    Fns.patch_offset_at (pos : Int) (offset : Int) code =
       (match JumpLimits.patchOffsetAt code.length offset with
        | .fault => .panic
        | .tooLarge =>
-          .ok ((), (code'.set pos (loByte ((code.length - offset) % 65536))).set (pos + 1) (hiByte ((code.length - offset) % 65536)),
+          .ok ((), (code.set pos (loByte ((code.length - offset) % 65536))).set (pos + 1) (hiByte ((code.length - offset) % 65536)),
                [Rs.Eff.mk "self.error" [.s "Too much code in block."]])
-       | .ok operand => .ok ((), (code'.set pos (loByte operand)).set (pos + 1) (hiByte operand), [])) := by
+       | .ok operand => .ok ((), (code.set pos (loByte operand)).set (pos + 1) (hiByte operand), [])) := by
   unfold Fns.patch_offset_at JumpLimits.patchOffsetAt
   simp only [F64.isizeMax, Rs.len] at *
   try dsimp only
@@ -165,7 +164,7 @@ theorem patch_offset_at_tie (code code' : List (BitVec 8)) (pos offset : Nat) (h
     have e0 : ¬ ((pos : Int) < 0) := by omega
     have e1 : ¬ ((pos : Int) + 1 < 0) := by omega
     have e2 : ((pos : Int) + 1).toNat = pos + 1 := by omega
-    have hp0 : pos < code'.length := by omega
+    have hp0 : pos < code.length := by omega
     by_cases hbig : jump > JumpLimits.JUMP_SIZE_MAX
     · rw [if_pos (decide_eq_true (by simp only [JumpLimits.JUMP_SIZE_MAX] at hbig; omega))]
       simp only [hbig, if_true, Rs.M.bind_ok, hb.1, hb.2]
